@@ -809,6 +809,19 @@ func NewMap(keyType, valueType Type, in []Value) Value {
 	return newNumericMap(keyType, valueType, in)
 }
 
+// dropKey returns keys without the (stale) occurrence of key. It copies, so
+// that iterators holding the old list keep their snapshot.
+func dropKey[K comparable](keys []K, key K) []K {
+	for i, k := range keys {
+		if k == key {
+			res := make([]K, 0, len(keys))
+			res = append(res, keys[:i]...)
+			return append(res, keys[i+1:]...)
+		}
+	}
+	return keys
+}
+
 func newStringMap(keyType, valueType Type, in []Value) Value {
 	m := &stringMap{valueType: valueType, data: map[string]Value{}}
 	m.keys = make([]string, len(in)/2)
@@ -840,6 +853,9 @@ func (m *stringMap) Get(k Value) (Value, bool) {
 func (m *stringMap) Set(k, v Value) {
 	key := string(k.value.(stringT))
 	if _, ok := m.data[key]; !ok {
+		if len(m.keys) > len(m.data) {
+			m.keys = dropKey(m.keys, key)
+		}
 		m.keys = append(m.keys, key)
 	}
 	m.data[key] = v.assign(m.valueType)
@@ -920,6 +936,9 @@ func (m *numericMap) Get(k Value) (Value, bool) {
 func (m *numericMap) Set(k, v Value) {
 	key := k.num
 	if _, ok := m.data[key]; !ok {
+		if len(m.keys) > len(m.data) {
+			m.keys = dropKey(m.keys, key)
+		}
 		m.keys = append(m.keys, key)
 	}
 	m.data[key] = v.assign(m.valueType)
